@@ -69,3 +69,39 @@ Definition fin_alloc_guard (f : vfp) : bool :=
 
 Definition c02_rto_armed_fin_g (c : vconfig) (st : fstep) : bool :=
   if fin_alloc_guard (fs_pre st) then c02_rto_armed c st else true.
+
+(* ---- c02_prompt, the write half, with the guards the code needs on the idle state:
+   the table is empty and last_sent_seq_nr does not stand ahead of snd_una (both index computations
+   of send_tx_queue's new-data part - calc_flight_size and iter_mut_for_sending - start at the head
+   of the table), and no immediate ACK is owed (consumed bytes below 2 MSS: otherwise the poll first
+   sends an ACK, whose size the path limit of the guard does not cover) ---- *)
+Definition idle_seq_ok (f : vfp) : bool :=
+  (seq_sub (wadd16 (f_last_sent_seq_nr f) 1) (f_snd_una f) <=? 0) &&
+  (seq_sub (f_last_sent_seq_nr f) (f_snd_una f) + 1 <=? 0).
+
+Definition no_imm_ack (f : vfp) : bool := f_cbu f <? IMMEDIATE_ACK_EVERY_RMSS * f_mss f.
+
+Definition prompt_window (c : vconfig) (a1 : c10_acc) (st0 st1 st2 : fstep) : bool :=
+  parked_idle st0 && plain_poll st2 && (fs_now st2 =? fs_now st1) &&
+  match ca_lim a1 with None => true | Some l => UTP_HEADER + f_max_ss (fs_pre st2) <=? l end.
+
+Definition emits_data (st : fstep) : bool :=
+  emits (fs_result st) (fun p => match ch_type (fq_hdr p) with ST_DATA => 1 <=? fq_plen p | _ => false end).
+
+Fixpoint c02_prompt_write_from (c : vconfig) (a : c10_acc) (tr : list fstep) : bool :=
+  match tr with
+  | st0 :: ((st1 :: st2 :: _) as r) =>
+      let a1 := c10_acc_next a st0 in
+      (if prompt_window c a1 st0 st1 st2 && idle_seq_ok (fs_pre st1) && no_imm_ack (fs_pre st1)
+       then
+         match fs_event st1, fs_result st1 with
+         | FeWrite _, FrWrite (WrOk n) =>
+             if can_send_new (fs_now st1) n (fs_pre st1) then emits_data st2 else true
+         | _, _ => true
+         end
+       else true)
+      && c02_prompt_write_from c a1 r
+  | _ => true
+  end.
+
+Definition c02_prompt_write_g (c : vconfig) (tr : list fstep) : bool := c02_prompt_write_from c c10_acc0 tr.
